@@ -649,7 +649,8 @@ func (c *ChannelWriter) createPartition(ctx context.Context, apiEvent *api.Repli
 			zap.String("collection", apiEvent.CollectionInfo.Schema.GetName()), zap.String("partition", util.Base64ProtoObj(apiEvent.PartitionInfo)))
 		return nil
 	}
-	dbName, colName := c.mapDBAndCollectionName(apiEvent.ReplicateParam.Database, apiEvent.CollectionInfo.Schema.GetName())
+	databaseName := apiEvent.ReplicateParam.Database
+	dbName, colName := c.mapDBAndCollectionName(databaseName, apiEvent.CollectionInfo.Schema.GetName())
 	apiEvent.ReplicateParam.Database = dbName
 	createParam := &api.CreatePartitionParam{
 		MsgBaseParam:   api.MsgBaseParam{Base: &commonpb.MsgBase{ReplicateInfo: apiEvent.ReplicateInfo}},
@@ -660,7 +661,8 @@ func (c *ChannelWriter) createPartition(ctx context.Context, apiEvent *api.Repli
 	err := c.dataHandler.CreatePartition(ctx, createParam)
 	if err != nil {
 		log.Warn("fail to create partition", zap.Any("event", apiEvent), zap.Error(err))
-		skip, _ := c.WaitObjReadyForAPIEvent(ctx, apiEvent, true, true, false)
+		// the create/drop times are recorded under the source names, not the mapped ones
+		skip, _ := c.WaitObjReady(ctx, databaseName, apiEvent.CollectionInfo.Schema.GetName(), "", apiEvent.ReplicateInfo.MsgTimestamp)
 		if !skip {
 			return err
 		}
@@ -692,7 +694,8 @@ func (c *ChannelWriter) dropPartition(ctx context.Context, apiEvent *api.Replica
 	err := c.dataHandler.DropPartition(ctx, dropParam)
 	if err != nil {
 		log.Warn("fail to drop partition", zap.Any("event", apiEvent), zap.Error(err))
-		skip, _ := c.WaitObjReadyForAPIEvent(ctx, apiEvent, true, true, false)
+		// the create/drop times are recorded under the source names, not the mapped ones
+		skip, _ := c.WaitObjReady(ctx, databaseName, collectionName, "", apiEvent.ReplicateInfo.MsgTimestamp)
 		if !skip {
 			return err
 		}
@@ -1043,12 +1046,12 @@ func (c *ChannelWriter) releasePartitions(ctx context.Context, msgBase *commonpb
 	if err != nil {
 		log.Warn("fail to release partitions", zap.Any("msg", releasePartitionsMsg), zap.Error(err))
 		for _, p := range partitions {
-			skip, _ := c.WaitObjReady(ctx, dbName, collectionName, p, releasePartitionsMsg.EndTs())
+			skip, _ := c.WaitObjReady(ctx, databaseName, collectionName, p, releasePartitionsMsg.EndTs())
 			if !skip {
 				return err
 			}
 		}
-		log.Info("partition has been dropped", zap.String("database", dbName),
+		log.Info("partition has been dropped", zap.String("database", databaseName),
 			zap.String("collection", collectionName), zap.Strings("partitions", partitions), zap.String("msg", util.Base64Msg(msg)))
 	}
 	return nil
